@@ -14,11 +14,25 @@
     is a function of the call's explicit arguments. The "running concurrently" clause itself (Go memory
     model, scheduler) is outside any executable model: partial. The check additionally compares a
     16-goroutine run with a sequential run of the same calls (testing, not proof).
-  NOT yet proved: panic-freedom (`pnc = false`) and offset/field ranges for the remaining parsers and the
-  pure functions; they are covered by the hostile-input correspondence (the model predicts `PANIC` exactly
-  where Go panics) and the safety oracle.
+  * **panic-freedom, offset sanity and dereferenceable fields for the message parser and everything it calls**
+    (`msg_never_panics`, `msg_never_panics_init`, `msg_schedule_never_panics`, `msg_schedule_never_panics_init`):
+    for ALL buffers within the documented 65,535-byte limit, all start offsets inside them, all flag
+    combinations, all caller-supplied capacities (or none) and ALL chunk schedules, ParseSIPMsg records no panic
+    (the model's `pnc` flags mark every Go construct that panics: slice bounds, PField.Set/Extend on inverted
+    ranges, nil interface), returns an offset inside the buffer that is not before the offset passed in when the
+    verdict is OK or MoreBytes, and every field of the object — first line, every header slot, the first-of-type
+    shortcuts, From/To/Call-ID/CSeq/Content-Length/Expires values, every stored contact and identity value, the
+    body — lies inside the buffer (`MsgFine`), whatever the verdict; `fine_deref` turns that into "the model's
+    `Get` returns a slice". The same is proved for the nested parsers on their own: `nameaddr_never_panics`
+    (33 states), `callid_never_panics`, `uint_never_panics`, `clen_never_panics`, `cseq_never_panics`,
+    `contacts_never_panics`, `pais_never_panics`, `fline_never_panics`, `hdrline_never_panics`,
+    `headers_never_panics`.
+  NOT yet proved: panic-freedom of the stand-alone parsers the message parser does not call (ParseTokenParam,
+  URI parameter / header lists, ParseURI, comparison, signature, lookup functions): covered by the hostile-input
+  correspondence (the model predicts `PANIC` exactly where Go panics) and the safety oracle.
 -/
 import Sipsp.Proofs.ProgressNA
+import Sipsp.Proofs.SafeMsg
 import Sipsp.Tie
 
 namespace Sipsp.C04
@@ -92,6 +106,132 @@ theorem callid_offs_sane (b : Buf) (o : Nat) (st : PCallIDBody) (ho : o ≤ b.si
     · intro i s _ hP; exact hP
     · exact ⟨Nat.le_refl _, ho⟩
 
+
+/-! ### panic-freedom, offsets, dereferenceable fields -/
+
+theorem nameaddr_never_panics (h : Nat) (b : Buf) (o : Nat) (pf : PFromBody) (hE : NaEntry b o pf)
+    {o' : Nat} {e : Err} {pf' : PFromBody} (hr : parseNameAddrPVal h b o pf = (o', e, pf')) :
+    NaOut b o' pf' ∧ (e = .moreBytes → NaEntry b o' pf') := parseNameAddrPVal_safe h b o pf hE hr
+
+theorem callid_never_panics (b : Buf) (o : Nat) (st : PCallIDBody) (h : CiSafe b o st) :
+    CiSafe b (parseCallIDVal b o st).1 (parseCallIDVal b o st).2.2 := parseCallIDVal_safe b o st h
+
+theorem uint_never_panics (b : Buf) (o : Nat) (st : PUIntBody) (h : ClSafe b o st) :
+    ClSafe b (parseUIntVal b o st).1 (parseUIntVal b o st).2.2 := parseUIntVal_safe b o st h
+
+theorem clen_never_panics (b : Buf) (o : Nat) (st : PUIntBody) (h : ClSafe b o st) :
+    ClOut b (parseCLenVal b o st).2.2 ∧
+    ((parseCLenVal b o st).2.1 ≠ .numTooBig → ClSafe b (parseCLenVal b o st).1 (parseCLenVal b o st).2.2) ∧
+    (parseCLenVal b o st).1 ≤ b.size := parseCLenVal_safe b o st h
+
+theorem cseq_never_panics (b : Buf) (o : Nat) (st : PCSeqBody) (hfit : b.size ≤ 65535) (h : CsSafe b o st) :
+    CsT b (parseCSeqVal b o st).1 (parseCSeqVal b o st).2.1 (parseCSeqVal b o st).2.2 :=
+  parseCSeqVal_safe b o st hfit h
+
+theorem contacts_never_panics (b : Buf) (o : Nat) (c : PContacts) (hfit : b.size ≤ 65535) (h : CtSafe b o c) :
+    CtOut b (parseAllContactValues b o c).2.2 ∧
+    ((parseAllContactValues b o c).2.1 = .moreBytes →
+      CtSafe b (parseAllContactValues b o c).1 (parseAllContactValues b o c).2.2) ∧
+    ((parseAllContactValues b o c).2.1 = .ok →
+      CtIdle b (parseAllContactValues b o c).2.2 ∧ (parseAllContactValues b o c).1 ≤ b.size) ∧
+    (parseAllContactValues b o c).1 ≤ b.size := parseAllContactValues_safe b o c hfit h
+
+theorem pais_never_panics (b : Buf) (o : Nat) (c : PPAIs) (hfit : b.size ≤ 65535) (h : PaSafe b o c) :
+    PaOut b (parseAllPAIValues b o c).2.2 ∧
+    ((parseAllPAIValues b o c).2.1 = .moreBytes → PaSafe b (parseAllPAIValues b o c).1 (parseAllPAIValues b o c).2.2) ∧
+    ((parseAllPAIValues b o c).2.1 = .ok →
+      PaIdle b (parseAllPAIValues b o c).2.2 ∧ (parseAllPAIValues b o c).1 ≤ b.size) ∧
+    (parseAllPAIValues b o c).1 ≤ b.size := parseAllPAIValues_safe b o c hfit h
+
+theorem fline_never_panics (b : Buf) (o : Nat) (pl : PFLine) (hfit : b.size ≤ 65535) (h : FlSafe b o pl) :
+    FlSafe b (parseFLine b o pl).1 (parseFLine b o pl).2.2 := parseFLine_safe b o pl hfit h
+
+theorem hdrline_never_panics (b : Buf) (o : Nat) (h : Hdr) (hb : Option PHdrVals) (hfit : b.size ≤ 65535)
+    (H : HlSafe b o (h, hb)) (hI : hlOK b o h hb) {o' : Nat} {e : Err} {h' : Hdr} {hb' : Option PHdrVals}
+    (hr : parseHdrLine b o h hb = (o', e, h', hb')) :
+    HlOut b (h', hb') ∧ ((e = .ok ∨ e = .moreBytes) → HlSafe b o' (h', hb')) ∧ (e = .ok → h'.state = .fin) ∧
+      o' ≤ b.size := parseHdrLine_safe b o h hb hfit H hI hr
+
+theorem headers_never_panics (b : Buf) (offs : Nat) (hl : HdrLst) (hb : Option PHdrVals) (hfit : b.size ≤ 65535)
+    (hok1 : hlsOK b hl) (hok2 : hbOK b offs hb) (hpe : hlsPend hl hb) (ho : offs ≤ b.size)
+    (H : HlsSafe b offs hl hb) :
+    HlsOut b (parseHeaders b offs hl hb).2.2.1 ∧
+    (∀ hv, (parseHeaders b offs hl hb).2.2.2 = some hv → HvFine b hv) ∧
+    ((parseHeaders b offs hl hb).2.1 = .moreBytes →
+      HlsSafe b (parseHeaders b offs hl hb).1 (parseHeaders b offs hl hb).2.2.1 (parseHeaders b offs hl hb).2.2.2) ∧
+    ((parseHeaders b offs hl hb).2.1 = .ok ∨ (parseHeaders b offs hl hb).2.1 = .moreBytes →
+      offs ≤ (parseHeaders b offs hl hb).1 ∧ (parseHeaders b offs hl hb).1 ≤ b.size) ∧
+    (parseHeaders b offs hl hb).1 ≤ b.size := parseHeaders_safe b offs hl hb hfit hok1 hok2 hpe ho H
+
+/-- **one ParseSIPMsg call, any legitimate object** -/
+theorem msg_never_panics (b : Buf) (o : Nat) (m : PSIPMsg) (flags : Nat) (hfit : b.size ≤ 65535)
+    (hok : msgOK2 b o m) (H : MsgSafe b o m) :
+    MsgFine b (parseSIPMsg b o m flags).2.2 ∧ (parseSIPMsg b o m flags).1 ≤ b.size ∧
+    ((parseSIPMsg b o m flags).2.1 = .ok ∨ (parseSIPMsg b o m flags).2.1 = .moreBytes →
+      o ≤ (parseSIPMsg b o m flags).1) ∧
+    ((parseSIPMsg b o m flags).2.1 = .moreBytes →
+      msgOK2 b (parseSIPMsg b o m flags).1 (parseSIPMsg b o m flags).2.2 ∧
+      MsgSafe b (parseSIPMsg b o m flags).1 (parseSIPMsg b o m flags).2.2) := by
+  have hT := parseSIPMsg_safe b o m flags hfit hok H
+  refine ⟨hT.out, hT.le, hT.ge, fun hmb => ⟨?_, hT.more hmb⟩⟩
+  rcases hp : parseSIPMsg b o m flags with ⟨o1, e1, m1⟩
+  rw [hp] at hmb
+  simp only at hmb
+  subst hmb
+  have := (parseSIPMsg_resume b #[] o m flags flags hok hfit hp).2.1
+  simpa only [Array.append_empty] using this
+
+/-- … in particular from any object produced by Init: any previous contents, caller arrays of any capacity (or none),
+    any start offset inside the buffer -/
+theorem msg_never_panics_init (b : Buf) (o : Nat) (ho : o ≤ b.size) (m0 : PSIPMsg) (len kh kc : Nat)
+    (hdrs cts : Option Unit) (flags : Nat) (hfit : b.size ≤ 65535) :
+    let m := m0.init len (hdrs.map fun _ => Array.replicate kh {}) (cts.map fun _ => Array.replicate kc {})
+    MsgFine b (parseSIPMsg b o m flags).2.2 ∧ (parseSIPMsg b o m flags).1 ≤ b.size ∧
+    ((parseSIPMsg b o m flags).2.1 = .ok ∨ (parseSIPMsg b o m flags).2.1 = .moreBytes →
+      o ≤ (parseSIPMsg b o m flags).1) :=
+  let h := msg_never_panics b o _ flags hfit (msgOK2_init b o ho m0 len kh kc hdrs cts)
+    (MsgSafe_init b o ho m0 len kh kc hdrs cts)
+  ⟨h.1, h.2.1, h.2.2.1⟩
+
+/-- **every chunk schedule** -/
+theorem msg_schedule_never_panics (flags : Nat) (o : Nat) (m : PSIPMsg) (l : List Buf) (hg : Growing l)
+    (hfit : ∀ x ∈ l, x.size ≤ 65535) (hne : l ≠ []) (h0 : ∀ b ∈ l.head?, msgOK2 b o m ∧ MsgSafe b o m) :
+    ∃ b ∈ l, MsgQ b o (resumeRun (fun b o m => parseSIPMsg b o m flags) o m l) :=
+  parseSIPMsg_schedule_safe flags o m l hg hfit hne h0
+
+/-- **every chunk schedule, from Init** -/
+theorem msg_schedule_never_panics_init (flags : Nat) (o : Nat) (m0 : PSIPMsg) (len kh kc : Nat)
+    (hdrs cts : Option Unit) (l : List Buf) (hg : Growing l) (hfit : ∀ x ∈ l, x.size ≤ 65535) (hne : l ≠ [])
+    (ho : ∀ b ∈ l.head?, o ≤ b.size) :
+    let m := m0.init len (hdrs.map fun _ => Array.replicate kh {}) (cts.map fun _ => Array.replicate kc {})
+    ∃ b ∈ l, MsgQ b o (resumeRun (fun b o m => parseSIPMsg b o m flags) o m l) :=
+  parseSIPMsg_schedule_safe flags o _ l hg hfit hne
+    (fun b hb => ⟨msgOK2_init b o (ho b hb) m0 len kh kc hdrs cts, MsgSafe_init b o (ho b hb) m0 len kh kc hdrs cts⟩)
+
+/-- what `MsgFine` means for a caller: within the 65,535-byte limit, `Get` on the reported fields returns a slice
+    of the buffer (never out of range) -/
+theorem fine_deref (b : Buf) (m : PSIPMsg) (hfit : b.size ≤ 65535) (h : MsgFine b m) :
+    m.pnc = false ∧
+    (∃ x, m.fl.method.get? b = some x) ∧ (∃ x, m.fl.uri.get? b = some x) ∧ (∃ x, m.fl.version.get? b = some x) ∧
+    (∃ x, m.fl.statusCode.get? b = some x) ∧ (∃ x, m.fl.reason.get? b = some x) ∧ (∃ x, m.body.get? b = some x) ∧
+    (∀ k, k < m.hl.hdrs.size → (∃ x, m.hl.hdrs[k]!.name.get? b = some x) ∧ (∃ x, m.hl.hdrs[k]!.val.get? b = some x)) ∧
+    (∀ j, j < m.hl.h.size → (∃ x, m.hl.h[j]!.name.get? b = some x) ∧ (∃ x, m.hl.h[j]!.val.get? b = some x)) ∧
+    (∃ x, m.pv.from_.uri.get? b = some x) ∧ (∃ x, m.pv.from_.tag.get? b = some x) ∧
+    (∃ x, m.pv.to.uri.get? b = some x) ∧ (∃ x, m.pv.to.tag.get? b = some x) ∧
+    (∃ x, m.pv.callid.callID.get? b = some x) ∧ (∃ x, m.pv.cseq.cseq.get? b = some x) ∧
+    (∃ x, m.pv.cseq.method.get? b = some x) ∧ (∃ x, m.pv.clen.sVal.get? b = some x) ∧
+    (∀ k, k < m.pv.contacts.n → k < m.pv.contacts.vals.size →
+      (∃ x, m.pv.contacts.vals[k]!.uri.get? b = some x) ∧ (∃ x, m.pv.contacts.vals[k]!.v.get? b = some x)) ∧
+    (∀ k, k < m.pv.pais.n → k < m.pv.pais.vals.size → ∃ x, m.pv.pais.vals[k]!.uri.get? b = some x) := by
+  have g := fun f hf => field_get?_some b f hf hfit
+  refine ⟨h.pnc, g _ h.fl.method, g _ h.fl.uri, g _ h.fl.version, g _ h.fl.statusCode, g _ h.fl.reason, g _ h.body,
+    (fun k hk => ⟨g _ (h.hl.all k hk).2.1, g _ (h.hl.all k hk).2.2⟩),
+    (fun j hj => ⟨g _ (h.hl.hF j hj).2.1, g _ (h.hl.hF j hj).2.2⟩),
+    g _ h.pv.from_.uri, g _ h.pv.from_.tag, g _ h.pv.to.uri, g _ h.pv.to.tag, g _ h.pv.callid.1, g _ h.pv.cseq.1,
+    g _ h.pv.cseq.2.1, g _ h.pv.clen.1,
+    (fun k h1 h2 => ⟨g _ (h.pv.contacts.stored k h1 h2).uri, g _ (h.pv.contacts.stored k h1 h2).v⟩),
+    (fun k h1 h2 => g _ (h.pv.pais.stored k h1 h2).uri)⟩
+
 /-- **isolation, static part** (regenerated from the source on every run) -/
 theorem no_shared_state :
     Gen.pkgVarWrites = [] ∧ Gen.goStmts = [] ∧
@@ -100,5 +240,8 @@ theorem no_shared_state :
 
 /-! ### non-vacuity -/
 example : (parseCallIDVal #[32, 97, 13] 1 {}).1 = 2 := by decide +kernel
+/-- the hypotheses of `msg_never_panics` are satisfiable: every object produced by Init meets them -/
+example (b : Buf) : msgOK2 b 0 (({} : PSIPMsg).init 0 none none) ∧ MsgSafe b 0 (({} : PSIPMsg).init 0 none none) :=
+  ⟨msgOK2_init b 0 (Nat.zero_le _) {} 0 0 0 none none, MsgSafe_init b 0 (Nat.zero_le _) {} 0 0 0 none none⟩
 
 end Sipsp.C04
